@@ -25,7 +25,7 @@ PROP = "C17"
 OPS = ["mean", "min", "max", "median", "std", "var", "sum", "prod", "all", "any"]
 DESTS = ["face", "edge"]
 INVS = ["TypeOK", "L2_Partition", "L2_FaceAgg", "PaddingIrrelevant", "L2_EdgeAgg", "Laws", "TracerReadable"]
-LEAD_NAMES = ["time", "lev"]
+LEAD_NAMES = ["time", "lev", "ens"]
 TOL = 1e-12
 
 
@@ -59,27 +59,47 @@ def gen_scope(ctx, tag, nnode, maxfaces, sizes, canon=False, npat=1, invs=INVS):
     return out
 
 
-def shape_case(cid, k, mesh, n_node, rows4, **extra):
-    """Pick rank / dtype / denominator by the case counter so all combinations occur."""
-    rank = 1 + k % 3
+LAYOUTS = []  # filled by gen_layouts(): the layouts TLC enumerated (AggLayout.tla)
+
+
+def gen_layouts(ctx):
+    """Model-check the layout laws and return the layouts (dump) = the generated dimension arrangements."""
+    dump = os.path.join(ctx.work, "agg_layouts")
+    r = ctx.tlc_ok(
+        "AggLayout",
+        "INIT Init\nNEXT Next\nCONSTANTS\n MaxRank = 4\n SizePool = {1,2,3,4}\n MaxRows = 12\n"
+        "INVARIANT L2_Layout\nINVARIANT OffsetLaw\nINVARIANT SwapDiffers\nCHECK_DEADLOCK FALSE\n",
+        what="every position of the node dimension in rank 1..4 data with pairwise different other sizes: moveaxis/gather/moveaxis-back = fold per index tuple; flat-offset law; swapaxes variant differs iff node axis >= 2 from the end",
+        dump=dump,
+        timeout=1200,
+    )
+    with open(dump + ".dump") as fh:
+        states = tlaval.parse_dump(fh.read())
+    os.remove(dump + ".dump")
+    if len(states) != r.distinct:
+        raise Machinery("layout dump has %d states, TLC reports %d" % (len(states), r.distinct))
+    out = [{"pos": s["layout"]["pos"], "lead": list(s["layout"]["lead"])} for s in states]
+    out.sort(key=lambda l: (len(l["lead"]), l["pos"], l["lead"]))
+    return out
+
+
+def shape_case(cid, k, mesh, n_node, rows4, layout=None, backing=None, **extra):
+    """Pick layout / dtype / denominator / backing by the case counter so all combinations occur."""
+    lay = layout if layout is not None else LAYOUTS[k % len(LAYOUTS)]
     dtype = ["int", "float", "bool"][(k // 3) % 3]
     den = 2 if (dtype == "float" and (k // 9) % 2 == 1) else 1
-    lead = [[], [3], [2, 2]][rank - 1]
-    nrow = [1, 3, 4][rank - 1]
-    rows = [list(r) for r in rows4[:nrow]]
+    lead = list(lay["lead"])
+    nrow = 1
+    for x in lead:
+        nrow *= x
+    src = [list(r) for r in rows4]
     if dtype == "bool":
-        rows = [[1 if v > 0 else 0 for v in r] for r in rows]
-    c = {"prop": PROP, "id": cid, "mesh": mesh, "n_node": n_node, "rows": rows, "den": den, "dtype": dtype, "lead": lead, "k": k}
+        src = [[1 if v > 0 else 0 for v in r] for r in src]
+    # canonical rows: one node row per C-order index of the other dimensions; the four patterns, rotated further on
+    rows = [src[j % 4][(j // 4) % n_node :] + src[j % 4][: (j // 4) % n_node] for j in range(nrow)]
+    c = {"prop": PROP, "id": cid, "mesh": mesh, "n_node": n_node, "rows": rows, "den": den, "dtype": dtype, "lead": lead, "pos": lay["pos"], "k": k}
     # one block of 18 in six: the data as a chunked dask array
-    c["backing"] = "dask" if (k // 18) % 6 == 1 else "numpy"
-    # one case in four also as a rank-2 array whose node dimension comes FIRST: (n_node, lev); lev is either longer
-    # than n_node (indexing the last axis with node ids stays in bounds) or 2
-    if k % 4 == 1:
-        L = n_node + 1 if (k // 4) % 2 == 0 else 2
-        src = [list(r) for r in rows4]
-        if dtype == "bool":
-            src = [[1 if v > 0 else 0 for v in r] for r in src]
-        c["alt_rows"] = [src[j % 4][j % n_node :] + src[j % 4][: j % n_node] for j in range(L)]
+    c["backing"] = backing or ("dask" if (k // 18) % 6 == 1 else "numpy")
     c.update(extra)
     return c
 
@@ -117,20 +137,26 @@ def record_case(case):
     import numpy as np
 
     ux = hux.import_ux()
-    rec = {k: case[k] for k in ("id", "n_node", "mesh", "den", "dtype", "lead", "rows")}
+    rec = {k: case[k] for k in ("id", "n_node", "mesh", "den", "dtype", "lead", "pos", "rows")}
     lead = case["lead"]
+    pos = case["pos"]
     rec["lead_dims"] = LEAD_NAMES[: len(lead)]
+
+    def ins(seq, x):
+        return list(seq[:pos]) + [x] + list(seq[pos:])
+
     try:
         g = mc.build_grid(case)
         npdt = {"int": np.int64, "float": np.float64, "bool": np.bool_}[case["dtype"]]
         arr = np.array(case["rows"], dtype=np.int64).reshape(lead + [case["n_node"]])
+        arr = np.ascontiguousarray(np.moveaxis(arr, -1, pos))  # the node axis at its position in this layout
         data = (arr / case["den"]).astype(npdt) if case["den"] != 1 else arr.astype(npdt)
-        dims = rec["lead_dims"] + ["n_node"]
+        dims = ins(rec["lead_dims"], "n_node")
         rec["backing"] = case.get("backing", "numpy")
         if rec["backing"] == "dask":
             import dask.array as da
 
-            data = da.from_array(data, chunks=tuple([1] * len(lead) + [max(1, case["n_node"] // 2)]))
+            data = da.from_array(data, chunks=tuple(ins([1] * len(lead), max(1, case["n_node"] // 2))))
         uxda = ux.UxDataArray(data, dims=dims, uxgrid=g, name="v")
         rows, dt_ok, fill_ok = hux.table(g.edge_node_connectivity)
         rec["edges"] = rows
@@ -145,13 +171,11 @@ def record_case(case):
             try:
                 out = getattr(uxda, "topological_" + op)(destination=dest)
                 vals = np.asarray(out.values)
-                n_el = vals.shape[-1] if vals.ndim else 0
-                flat = vals.reshape(-1, n_el) if vals.ndim else vals.reshape(1, 0)
                 sq = op == "std"
-                v = [[proj(x, sq) for x in row.tolist()] for row in flat.astype(float)]
+                flat = [proj(x, sq) for x in vals.astype(float).ravel().tolist()]  # the result in its own C order
                 same = (out.uxgrid is g) or bool(out.uxgrid == g)
                 res[dest][op] = {
-                    "v": v,
+                    "flat": flat,
                     "dims": [str(d) for d in out.dims],
                     "shape": [int(s) for s in vals.shape],
                     "cls": type(out).__name__,
@@ -166,8 +190,8 @@ def record_case(case):
     n_face = len(case["mesh"])
     ops2 = [OPS[k % 10], OPS[(k + 3) % 10]]
     for src, n in (("face", n_face), ("edge", n_edge)):
-        sdata = np.arange(int(np.prod(lead + [n]))).reshape(lead + [n]).astype(npdt)
-        sda = ux.UxDataArray(sdata, dims=rec["lead_dims"] + ["n_" + src], uxgrid=g, name="s")
+        sdata = np.arange(int(np.prod(lead + [n]))).reshape(ins(lead, n)).astype(npdt)
+        sda = ux.UxDataArray(sdata, dims=ins(rec["lead_dims"], "n_" + src), uxgrid=g, name="s")
         for j, dst in enumerate(["face", "edge", "node", "cell"]):
             op = ops2[j % 2]
             try:
@@ -185,30 +209,6 @@ def record_case(case):
             raised = True
         unsup.append({"src": "node", "dst": dst, "op": op, "raised": raised})
     rec["unsup"] = unsup
-    # node dimension not last: either refused, or reduced along the node axis with the destination dim in its place
-    if case.get("alt_rows"):
-        ar = case["alt_rows"]
-        a = np.array(ar, dtype=np.int64).T  # (n_node, lev)
-        adata = (a / case["den"]).astype(npdt) if case["den"] != 1 else a.astype(npdt)
-        ada = ux.UxDataArray(adata, dims=["n_node", "lev"], uxgrid=g, name="v")
-        alt = {"rows": ar, "res": {}}
-        for dest in DESTS:
-            alt["res"][dest] = {}
-            for op in [OPS[k % 10], OPS[(k + 3) % 10], OPS[(k + 7) % 10]]:
-                try:
-                    out = getattr(ada, "topological_" + op)(destination=dest)
-                    vals = np.asarray(out.values, dtype=float)
-                    dname = "n_" + dest
-                    e = {"dims": [str(d) for d in out.dims], "shape": [int(x) for x in vals.shape], "cls": type(out).__name__}
-                    if dname in out.dims and vals.ndim == 2:
-                        moved = np.moveaxis(vals, list(out.dims).index(dname), -1)
-                        e["v"] = [[proj(x, op == "std") for x in row.tolist()] for row in moved]
-                    else:
-                        e["v"] = []
-                    alt["res"][dest][op] = e
-                except Exception:  # noqa - refusing the layout is acceptable
-                    alt["res"][dest][op] = {"raised": True}
-        rec["alt"] = alt
     rec["sizes"] = {"n_node": case["n_node"], "n_face": n_face, "n_edge": n_edge}
     return rec
 
@@ -296,9 +296,7 @@ def judge_records(ctx, recs, by_id):
     for rid, cl in failed.items():
         c = by_id[rid]
         for clause in sorted(cl):
-            sig = {"scope": rid.split(":")[0], "dtype": c["dtype"], "rank": len(c["lead"]) + 1}
-            if clause.startswith("Layout_") and clause[7:] in shapes.get(rid, ()):
-                sig["shape"] = "GatherOnLastAxis"  # decided by TLC: node axis kept, gather applied to the last axis
+            sig = {"scope": rid.split(":")[0], "dtype": c["dtype"], "rank": len(c["lead"]) + 1, "pos": c["pos"], "backing": c["backing"]}
             ctx.violation(rid, clause, detail={"failed": sorted(cl)}, replay=c, sig=sig)
     return failed
 
@@ -316,7 +314,9 @@ def run(ctx):
             what="size partition sound for every vector of <=%d face sizes from %s and every argsort outcome" % (maxf, sizes),
         )
 
-    # 2. exhaustive small scopes: model-check L2 = L1, dump = generated cases
+    # 2. the position of the node dimension: layouts enumerated (and their laws proved) by TLC
+    LAYOUTS[:] = gen_layouts(ctx)
+    # 3. exhaustive small scopes: model-check L2 = L1, dump = generated cases
     cases = []
 
     def add(tag, states, n_node, pick=None):
@@ -326,17 +326,23 @@ def run(ctx):
             cases.append(shape_case("%s:%d" % (tag, k), k, mesh, n_node, rows4))
 
     add("s3f3", gen_scope(ctx, "s3f3", 3, 3, [3]), 3)  # n_node = n_face = n_edge = 3 occurs here
-    add("s4f2", gen_scope(ctx, "s4f2", 4, 2, [3, 4], npat=2), 4, pick=None if thorough else 1500)
+    add("s4f2", gen_scope(ctx, "s4f2", 4, 2, [3, 4], npat=2), 4, pick=None if thorough else 1200)
     if thorough:
-        add("s5f2", gen_scope(ctx, "s5f2", 5, 2, [3, 4, 5]), 5, pick=20000)
-        add("c5f3", gen_scope(ctx, "c5f3", 5, 3, [3, 4, 5], canon=True, npat=2), 5)
-        add("s4f3", gen_scope(ctx, "s4f3", 4, 3, [3, 4], invs=["TypeOK", "L2_Partition"]), 4, pick=8000)
+        add("s5f2", gen_scope(ctx, "s5f2", 5, 2, [3, 4, 5]), 5, pick=6000)
+        add("c5f3", gen_scope(ctx, "c5f3", 5, 3, [3, 4, 5], canon=True, npat=2), 5, pick=4000)
+        add("s4f3", gen_scope(ctx, "s4f3", 4, 3, [3, 4], invs=["TypeOK", "L2_Partition"]), 4, pick=3000)
     else:
-        add("s5f2", gen_scope(ctx, "s5f2", 5, 2, [3, 5], invs=["TypeOK", "L2_Partition"]), 5, pick=600)
-        add("c5f3", gen_scope(ctx, "c5f3", 5, 3, [3, 4, 5], canon=True, invs=["TypeOK", "L2_Partition", "L2_FaceAgg"]), 5, pick=700)
+        add("s5f2", gen_scope(ctx, "s5f2", 5, 2, [3, 5], invs=["TypeOK", "L2_Partition"]), 5, pick=500)
+        add("c5f3", gen_scope(ctx, "c5f3", 5, 3, [3, 4, 5], canon=True, invs=["TypeOK", "L2_Partition", "L2_FaceAgg"]), 5, pick=500)
     # face sizes with gaps (triangles + pentagons, quads + hexagons), all face orderings
-    add("g5f3", gen_scope(ctx, "g5f3", 5, 3, [3, 5], canon=True), 5, pick=None if thorough else 500)
-    add("g6f3", gen_scope(ctx, "g6f3", 6, 3, [4, 6], canon=True, invs=INVS if thorough else ["TypeOK", "L2_Partition", "L2_FaceAgg"]), 6, pick=None if thorough else 400)
+    add("g5f3", gen_scope(ctx, "g5f3", 5, 3, [3, 5], canon=True), 5, pick=None if thorough else 400)
+    add("g6f3", gen_scope(ctx, "g6f3", 6, 3, [4, 6], canon=True, invs=INVS if thorough else ["TypeOK", "L2_Partition", "L2_FaceAgg"]), 6, pick=2000 if thorough else 300)
+    # every layout x numpy / dask on one fixed mixed mesh (triangle + pentagon + quad), all reductions, both destinations
+    lay_mesh = [[0, 1, 2], [2, 1, 3, 4, 5], [0, 2, 5, 4]]
+    lay_rows = [[1, 2, 4, 8, 16, 32], [3, -1, 0, 2, -3, 4], [0, 0, 1, -2, 2, 1], [-4, 3, 3, 0, 1, -1]]
+    for i, lay in enumerate(LAYOUTS):
+        for backing in ("numpy", "dask"):
+            cases.append(shape_case("lay:%d:%s" % (i, backing), i + (0 if backing == "numpy" else 5), lay_mesh, 6, lay_rows, layout=lay, backing=backing))
     ctx.exhaustive = True
     n_small = len(cases)
 
@@ -350,12 +356,13 @@ def run(ctx):
     failed = {}
     small = recs[:n_small]
     big = recs[n_small:]
-    step = 4000
+    step = 2000
     for a in range(0, len(small), step):
         failed.update(judge_records(ctx, small[a : a + step], by_id))
     failed.update(judge_records(ctx, big, by_id))
 
     combos = set()
+    laycov = set()
     coincident = 0
     for c, r in zip(cases, recs):
         m = c["mesh"]
@@ -363,19 +370,25 @@ def run(ctx):
         nontrivial = len(m) >= 2
         ctx.count(20, (tuple(map(tuple, m)), tuple(map(tuple, c["rows"])), c["dtype"], c["den"]) if nontrivial else None)
         combos.add((c["dtype"], len(c["lead"]) + 1, len(sizes) > 1))
+        laycov.add((c["pos"], tuple(c["lead"]), c["backing"]))
         s = r.get("sizes", {})
         if s and (s["n_node"] == s["n_face"] or s["n_node"] == s["n_edge"]):
             coincident += 1
     ctx.note("dtype_rank_mixed_combinations", sorted(combos))
+    ctx.note("layouts_enumerated_by_tlc", len(LAYOUTS))
+    ctx.note("layout_x_backing_combinations_replayed", len(laycov))
+    ctx.note("cases_node_axis_two_or_more_from_last", sum(1 for c in cases if len(c["lead"]) - c["pos"] >= 2))
     ctx.note("coincident_size_grids", coincident)
     ctx.note("unsupported_calls_judged", sum(len(r.get("unsup", [])) for r in recs))
     ctx.rule = (
         "TLC enumerates every face-node table of the scope with data rows (AggScope.tla; AggPart.tla for the size partition "
         "on all size vectors and all argsort outcomes), proves the transcribed partition/gather equal to the declarative "
         "reductions, dumps the states; each state is replayed through UxDataArray.topological_<op>(destination) for all ten "
-        "reductions and both destinations with rank 1..3 and dtype int/float/bool chosen cyclically, plus 11 unsupported "
+        "reductions and both destinations, with the node dimension at every position of rank 1..4 data (layouts enumerated by TLC, "
+        "AggLayout.tla; other dims of pairwise different sizes), dtype int/float/bool and numpy/dask backing chosen cyclically and "
+        "every layout x backing on a fixed mixed mesh, plus 11 unsupported "
         "source/destination calls; JudgeAgg.tla decides every value by integer cross-multiplication against the spec's "
-        "rational, dims, shape, class, grid, raises. An evaluation = one (case, reduction, destination). Non-trivial = "
+        "rational at the C-order offset the layout demands, dims labels, shape, class, grid, raises. An evaluation = one (case, reduction, destination). Non-trivial = "
         "distinct (table, data, dtype) with >= 2 faces."
     )
     for r in recs[:1] + recs[n_small - 1 : n_small] + recs[-1:]:
@@ -387,8 +400,11 @@ def run(ctx):
                     "rows": r["rows"] if r["n_node"] < 8 else "...",
                     "dtype": r["dtype"],
                     "den": r["den"],
-                    "face.mean[p,q,flags]": r["res"]["face"]["mean"].get("v", [[None]])[0][:4],
-                    "edge.sum": r["res"]["edge"]["sum"].get("v", [[None]])[0][:4],
+                    "pos": r["pos"],
+                    "lead": r["lead"],
+                    "face.mean dims/shape": [r["res"]["face"]["mean"].get("dims"), r["res"]["face"]["mean"].get("shape")],
+                    "face.mean flat[p,q,flags]": (r["res"]["face"]["mean"].get("flat") or [None])[:4],
+                    "edge.sum flat": (r["res"]["edge"]["sum"].get("flat") or [None])[:4],
                     "unsup": r["unsup"][:3],
                 }
             )
@@ -397,7 +413,7 @@ def run(ctx):
         "projection of a float result to the nearest rational with denominator <= 4096 plus exact / 1e-12 flags (Python fractions); the equality with the expected rational is decided by TLC",
         "the edge destination is judged against the grid's own edge_node_connectivity (its correctness is C02)",
         "data are small integers or halves, so sums / products / extrema are exact in binary floating point",
-        "node dimension not last: a refusal (raise) or the reduction along the node axis are both accepted; other numbers are a violation",
+        "'node-centred arrays of any rank' is read as: the node dimension may sit at any position (as the fix ba0bc77d established); the destination dimension must take that position",
         "dask-backed (chunked) node data exercised on one block of cases in six; results are computed eagerly by the library",
     ]
 
